@@ -43,9 +43,13 @@ class Harness:
         if self.solver:
             out.append("#[kani::solver(%s)]" % self.solver)
         out.append("fn %s() {" % self.name)
-        for an, at in self.args:
-            out.append("    let %s: %s = kani::any();" % (an, at))
-        call = "%s::verif::%s(%s)" % (self.crate, self.fn, ", ".join(a for a, _ in self.args))
+        for arg in self.args:
+            an, at = arg[0], arg[1]
+            if len(arg) > 2:
+                out.append("    let %s: %s = %s;" % (an, at, self.rust_literal(at, arg[2])))
+            else:
+                out.append("    let %s: %s = kani::any();" % (an, at))
+        call = "%s::verif::%s(%s)" % (self.crate, self.fn, ", ".join(a[0] for a in self.args))
         out.append("    let r: u32 = %s;" % call)
         for i, c in enumerate(self.covers):
             out.append('    kani::cover!(r & %d != 0, "%s");' % (1 << i, c))
@@ -57,7 +61,11 @@ class Harness:
         """vecs: list of byte lists as printed by concrete playback, in any() order."""
         vals = []
         it = iter(vecs)
-        for an, at in self.args:
+        for arg in self.args:
+            an, at = arg[0], arg[1]
+            if len(arg) > 2:
+                vals.append((an, at, arg[2]))   # concrete (enumerated) argument
+                continue
             m = re.match(r"\[\s*(\w+)\s*;\s*(\d+)\s*\]$", at)
             if m:
                 et, n = m.group(1), int(m.group(2))
